@@ -96,8 +96,15 @@ def verify_function(index, contracts, c, props_filter=None):
                 raise Unsupported(f"parameter '{n}' of {c.key} has no kind in the contract")
         for name, kind in c.params:
             st.env[name] = make_param(ctx, st, name, kind)
+        if c.free:
+            st.env["$closure"] = {n: make_param(ctx, st, n, k) for n, k in c.free}
+        if c.globals:
+            st.ghost["globals"] = {(fi.module, n): make_param(ctx, st, "g_" + n, k) for n, k in c.globals}
         entry = st.fork()
-        A = View(entry, entry.env)
+        venv = dict(entry.env)
+        venv.update(entry.env.get("$closure", {}))
+        venv.update({n: v for (m_, n), v in entry.ghost.get("globals", {}).items()})
+        A = View(entry, venv)
         for fn in c._requires:
             for label, f in fn(A):
                 st.assume(f)
@@ -118,7 +125,10 @@ def verify_function(index, contracts, c, props_filter=None):
                 if c.result_kind is not None:
                     rv = ops.coerce(s2, rv, c.result_kind)
                 n_ret += 1
-                N = View(s2, s2.env)
+                nenv = dict(s2.env)
+                nenv.update(s2.env.get("$closure", {}))
+                nenv.update({n: v for (m_, n), v in s2.ghost.get("globals", {}).items()})
+                N = View(s2, nenv)
                 for fn, props in c._ensures:
                     if props_filter and props and not (set(props) & set(props_filter)):
                         continue
@@ -128,10 +138,10 @@ def verify_function(index, contracts, c, props_filter=None):
                 for exc, when in c._raises.items():
                     ctx.oblige(f"{ctx.unit}/must-raise:{exc}", s2, z3.Not(when(A)), "raises", None)
                 # frame: parameter containers unchanged unless declared
-                for name, kind in c.params:
+                for name, kind in list(c.params) + list(c.free) + list(c.globals):
                     if c.modifies and name in c.modifies:
                         continue
-                    v0, v1 = entry.env[name], s2.env.get(name) if False else entry.env[name]
+                    v0 = venv[name]
                     if isinstance(v0, VObj):
                         _frame_obligations(ctx, entry, s2, v0, name, c)
                 res.covers.append((f"{ctx.unit}/return-path{n_ret}-reachable", list(s2.pc)))
@@ -146,10 +156,14 @@ def verify_function(index, contracts, c, props_filter=None):
             else:
                 raise Unsupported("break/continue at function level")
     except Unsupported as e:
+        if os.environ.get("PYVC_DEBUG"):
+            raise
         res.error = f"unsupported: {e}"
     except AttributeError as e:
         res.error = f"contract refers to a vanished name: {e}"
     except z3.Z3Exception as e:
+        if os.environ.get("PYVC_DEBUG"):
+            raise
         res.error = f"unsupported: the code does not have the shape the contract types it with ({e})"
     res.obligations = ctx.obligations
     res.inlined = ctx.inlined
